@@ -10,7 +10,6 @@ from __future__ import annotations
 import json
 import logging
 import os
-import re
 import shutil
 import sys
 import tempfile
@@ -107,6 +106,9 @@ DTS = (0, 1, int(WRITE_PERIOD) + 1, SUBDIV + 1)
 
 # silence the package's own chatter (no behaviour depends on it)
 dc_mod.print = lambda *a, **k: None  # shadows the builtin inside that module only
+import pyrtma.utils.quicklogger_reader as _qlr_mod  # noqa: E402
+
+_qlr_mod.print = lambda *a, **k: None  # the reader prints one line per unknown/odd-sized record of a corrupt file
 _lg = logging.getLogger("data_logger")
 _lg.addHandler(logging.NullHandler())
 _lg.propagate = False
@@ -166,7 +168,7 @@ def frame(msg: Message) -> bytes:
 
 class CaseInfo:
     __slots__ = ("choices", "tape", "cycles", "preempt", "timeouts", "n_sub_files", "n_expected", "paused_msgs",
-                 "fast_warn", "log", "restarts")
+                 "log", "restarts")
 
     def __init__(self):
         self.choices = []
@@ -177,7 +179,6 @@ class CaseInfo:
         self.n_sub_files = 0
         self.n_expected = 0
         self.paused_msgs = 0
-        self.fast_warn = 0
         self.log = []
         self.restarts = 0
 
@@ -215,9 +216,6 @@ def _writer_pattern(log, wtid, ev_disk, ev_fin):
             cur = None
         last_w = i
     return len(cycles), tuple(cycles)
-
-
-_SUB_RE = re.compile(r"^(?P<base>.+?)(_(?P<idx>\d{4}))?$")
 
 
 def _files_in_order(ddir: str, base: str, ext: str):
@@ -314,7 +312,6 @@ def run_case(datasets, history, tape, want_log=False) -> CaseInfo:
     tape:     schedule tape (see vlib/sched.py)
     """
     info = CaseInfo()
-    trace_of = lambda: _trace(datasets, history, sched.normalised_tape())  # noqa: E731
     tmp = tempfile.mkdtemp(prefix="c17-", dir="/tmp")
     sched = Scheduler(tape)
     clock = VirtualClock(sched)
@@ -424,7 +421,6 @@ def run_case(datasets, history, tape, want_log=False) -> CaseInfo:
         if wt is not None:
             info.cycles, info.preempt = _writer_pattern(sched.log, wt.tid, "write_to_disk", "write_finished")
         info.timeouts = sum(1 for e in sched.log if e[1] == "timeout")
-        info.fast_warn = 0
         if want_log:
             info.log = [list(map(str, e)) for e in sched.log]
 
@@ -463,11 +459,10 @@ def run_case(datasets, history, tape, want_log=False) -> CaseInfo:
     finally:
         # ---- clean-up: no thread may survive the case, no handle, no directory
         try:
-            left = []
             if coll is not None:
                 coll._close = True
                 coll._dead = True
-            left = sched.finish()
+            sched.finish()
             for ds in dsets:
                 try:
                     ds.close()
@@ -736,7 +731,7 @@ def shard(seed: int, n_examples: int, max_len: int, max_tape: int, dfs_slice, n_
 
 def run(ctx: RunContext) -> int:
     t0 = _real_time.time()
-    n = ctx.scale(400, 12000)
+    n = ctx.scale(400, 8000)
     max_len = 14 if ctx.quick else 24
     max_tape = 48 if ctx.quick else 96
     limit = 1200 if ctx.quick else 4096
